@@ -108,6 +108,31 @@ def r1(run, ctx):
                           'the operation runs', f, rn.ast,
                           'the slot is released before the decorated function is called')
     # Future branch registers; non-Future branch releases
+    COROUTINE_FUTURES = ('tornado.concurrent.Future', 'tornado.gen.Future', 'asyncio.Future',
+                         'asyncio.futures.Future', 'tornado.concurrent.asyncio.Future')
+
+    def coroutine_future_class(x):
+        elts = x.elts if isinstance(x, ast.Tuple) else [x]
+        for y in elts:
+            d = dotted(y) or ''
+            head, _, rest = d.partition('.')
+            full = f.module.imports.get(head)
+            full = (full + ('.' + rest if rest else '')) if full else d
+            if full in COROUTINE_FUTURES:
+                return True
+        return False
+    ftests = [(n, e) for n in ctx.live_nodes(f) if n.kind == 'test' for e in ast.walk(n.ast)
+              if isinstance(e, ast.Call) and dotted(e.func) == 'isinstance' and len(e.args) == 2
+              and 'Future' in norm_text(e.args[1])]
+    for n, e in ftests:
+        run.check('R1', coroutine_future_class(e.args[1]),
+                  'the test that selects the deferred release recognises what a coroutine returns',
+                  f, n.ast, 'the wrapper tests the result against %s, which is not the class of '
+                  'the futures gen.coroutine returns (tornado.concurrent.Future = asyncio.Future): '
+                  'the deferred release is never chosen and the slot is freed as soon as the '
+                  'coroutine suspends for the first time' % norm_text(e.args[1]),
+                  construct='WRONG-FUTURE-CLASS')
+
     def is_future(v):
         def assume(e):
             if isinstance(e, ast.Call) and dotted(e.func) == 'isinstance' and \
